@@ -133,12 +133,14 @@ def step_digest(app, obs_lists=None) -> dict:
     d["pointing"] = Numeric({int(i): (np.array(a.sensors.boresight, dtype=float), np.array([float(a.sensors.time_last_tasked)])) for i, a in sorted(app.sensor_agents.items())}, rtol=1e-9, atol=1e-12)
     # numeric component: compared with a rounding-level tolerance (the order of stacked observations
     # inside one filter update legitimately follows completion order and changes the last bits)
-    d["estimates"] = Numeric({int(i): (np.array(a.state_estimate, dtype=float), np.array(a.error_covariance, dtype=float)) for i, a in sorted(app.estimate_agents.items())}, rtol=1e-7, atol=1e-15)
+    d["estimates"] = Estimates({int(i): (np.array(a.state_estimate, dtype=float), np.array(a.error_covariance, dtype=float)) for i, a in sorted(app.estimate_agents.items())})
     d["est_flags"] = {int(i): (bool(a.maneuver_detected), float(a.last_observed_at) if hasattr(a, "last_observed_at") and a.last_observed_at is not None else None)
                       for i, a in sorted(app.estimate_agents.items())}
     for eid, e in sorted(app.tasking_engines.items()):
         d[f"engine{eid}.visibility"] = _h(np.asarray(e.visibility_matrix, dtype=bool).tobytes(), e.visibility_matrix.shape)
-        d[f"engine{eid}.reward"] = Numeric({0: (np.array(e.reward_matrix, dtype=float),)}, rtol=1e-6, atol=1e-12)
+        d[f"engine{eid}.reward"] = Numeric({0: (np.array(e.reward_matrix, dtype=float),)}, rtol=2e-2, atol=1e-12)
+        d[f"_raw.engine{eid}.reward"] = np.array(e.reward_matrix, dtype=float)
+        d[f"_raw.engine{eid}.decision"] = np.array(e.decision_matrix, dtype=bool)
         d[f"engine{eid}.decision"] = _h(np.asarray(e.decision_matrix, dtype=bool).tobytes(), e.decision_matrix.shape)
         d[f"engine{eid}.observations"] = sorted(obs_tuple(o) for o in e.observations)
         d[f"engine{eid}.missed"] = sorted(miss_tuple(m) for m in e.missed_observations)
@@ -178,11 +180,73 @@ class Numeric:
         return 0
 
 
+class Estimates:
+    """{id: (x, P)} compared up to the conditioning of a stacked filter update.
+
+    Permuting the observations stacked into one UKF update is exact in real arithmetic but changes the result by
+    about cond(S)*eps in floating point; with range-rate variances of 1e-14 km^2/s^2 next to position variances of
+    1e-1 km^2 that reaches 1e-3 relative (measured: dP/|P| = 1.6e-3, dx = 1.5e-6 sigma).  A lost or duplicated
+    observation changes P by tens of percent and x by a good fraction of sigma.
+    """
+
+    def __init__(self, data):
+        self.data = data
+
+    def __eq__(self, other):
+        if not isinstance(other, Estimates) or self.data.keys() != other.data.keys():
+            return False
+        for k, (x, p) in self.data.items():
+            x2, p2 = other.data[k]
+            if x.shape != x2.shape or p.shape != p2.shape:
+                return False
+            if not (np.all(np.isfinite(x)) and np.all(np.isfinite(p)) and np.all(np.isfinite(x2)) and np.all(np.isfinite(p2))):
+                if not (np.array_equal(np.isnan(x), np.isnan(x2)) and np.array_equal(np.isnan(p), np.isnan(p2))):
+                    return False
+                continue
+            sig = np.sqrt(np.maximum(np.abs(np.diag(p)), 0.0))
+            if np.any(np.abs(x - x2) > 1e-3 * sig + 1e-12):
+                return False
+            if np.any(np.abs(p - p2) > 5e-2 * np.sqrt(np.outer(np.abs(np.diag(p)), np.abs(np.diag(p)))) + 1e-18):
+                return False
+        return True
+
+    def __ne__(self, other):
+        return not self.__eq__(other)
+
+    def __hash__(self):
+        return 0
+
+
+CAUSAL_ORDER = ["truth", "sensor_truth", ".visibility", ".reward", ".decision", ".observations", ".missed", "pointing", "estimates", "est_flags", "db."]
+
+
+def _rank(key: str) -> int:
+    for i, pat in enumerate(CAUSAL_ORDER):
+        if key == pat or (pat.startswith(".") and key.endswith(pat)) or (pat.endswith(".") and key.startswith(pat)):
+            return i
+    return len(CAUSAL_ORDER)
+
+
 def first_difference(a: dict, b: dict):
-    for k in a:
+    """First differing component in *causal* order within a step (ignores the _raw.* helper entries)."""
+    keys = [k for k in a if not k.startswith("_raw.")]
+    for k in sorted(keys, key=_rank):
         if a[k] != b.get(k):
             return k
     for k in b:
-        if k not in a:
+        if k not in a and not k.startswith("_raw."):
             return k
     return None
+
+
+def decision_near_tie(a: dict, b: dict, comp: str, rel: float = 2e-2) -> bool:
+    """Do the two decisions collect (nearly) the same reward under run a's reward matrix?  Then the difference can be a tie broken
+    by rounding-level differences of the rewards (which derive from the estimates)."""
+    eng = comp.rsplit(".", 1)[0]
+    ra, da, db = a.get(f"_raw.{eng}.reward"), a.get(f"_raw.{eng}.decision"), b.get(f"_raw.{eng}.decision")
+    if ra is None or da is None or db is None or da.shape != db.shape or ra.shape != da.shape:
+        return False
+    if not np.all(np.isfinite(ra)):
+        return True
+    va, vb = float(np.sum(ra[da])), float(np.sum(ra[db]))
+    return abs(va - vb) <= rel * max(abs(va), abs(vb), 1e-300)
